@@ -508,6 +508,15 @@ theorem step_frame (w : World) (op : Op) (h : op.isExecute = false) :
   | setNoise n => simp only [step]; have := onExp_frame w (fun e => pure (setNoise e n)); simp [this]
   | setParam k v => simp only [step]; have := onExp_frame w (fun e => pure (setParam e k v)); simp [this]
   | clearParams => simp only [step]; have := onExp_frame w (fun e => pure (clearParams e)); simp [this]
+  | setCircuit checked sz circ cps =>
+    simp only [step]
+    have := onExp_frame w (fun e => if e.m = 0 then throw .precondition else setCircuit w.pf e checked sz circ cps)
+    simp [this]
+  | retune circ => simp only [step]; have := onExp_frame w (fun e => pure (retune e circ)); simp [this]
+  | addComponent circ cps =>
+    simp only [step]
+    have := onExp_frame w (fun e => if e.post.isSome then throw .precondition else pure (addComponent e circ cps))
+    simp [this]
   | prepare cmd cl il kw =>
     simp only [step]; split
     · simp [Out.isSent]
@@ -1020,6 +1029,26 @@ theorem step_wf (w : World) (op : Op) (hw : w.WFInv) : (step w op).1.WFInv := by
   | clearParams =>
     simp only [step]; apply onExp_wf _ _ _ hw
     intro e e' he hf; cases hf; exact ⟨he.count, he.nodup, he.inside, he.inlen⟩
+  | setCircuit checked sz circ cps =>
+    simp only [step]; apply onExp_wf _ _ _ hw
+    intro e e' he hf
+    split at hf
+    · cases hf
+    · unfold setCircuit at hf
+      split at hf
+      · cases hf
+      · split at hf
+        · cases hf
+        · cases hf; exact ⟨he.count, he.nodup, he.inside, he.inlen⟩
+  | retune circ =>
+    simp only [step]; apply onExp_wf _ _ _ hw
+    intro e e' he hf; cases hf; exact ⟨he.count, he.nodup, he.inside, he.inlen⟩
+  | addComponent circ cps =>
+    simp only [step]; apply onExp_wf _ _ _ hw
+    intro e e' he hf
+    split at hf
+    · cases hf
+    · cases hf; exact ⟨he.count, he.nodup, he.inside, he.inlen⟩
   | prepare cmd cl il kw =>
     simp only [step]
     split
@@ -1056,5 +1085,105 @@ theorem step_wf (w : World) (op : Op) (hw : w.WFInv) : (step w op).1.WFInv := by
   | execute idx args kw =>
     rcases step_execute w idx args kw with ⟨-, h⟩ | ⟨j, its, -, -, h⟩ | ⟨j, its, err, -, -, -, h⟩ | ⟨j, its, pl, -, -, -, h⟩ <;>
       (rw [h]; exact hw)
+
+/-! ### the circuit symbol of the remote processor: who changes it -/
+
+/-- the operations that (may) change what the processor's circuit denotes -/
+def Op.touchesCircuit : Op → Bool
+  | .newRemote _ _ _ _ _ => true
+  | .convert _ _ => true
+  | .setCircuit _ _ _ _ => true
+  | .retune _ => true
+  | .addComponent _ _ => true
+  | _ => false
+
+/-- the circuit symbol the remote processor currently holds -/
+def World.circ (w : World) : Option Sym := w.exp.map (·.circ)
+
+theorem onExp_circ (w : World) (f : Exp → Res Exp) (hf : ∀ e e', f e = .ok e' → e'.circ = e.circ) :
+    (onExp w f).1.circ = w.circ := by
+  unfold onExp
+  split
+  · rfl
+  · rename_i e he
+    split
+    · rfl
+    · rename_i e' hfe
+      simp [World.circ, he, hf e e' hfe]
+
+theorem addHerald_circ (e e' : Exp) (mode ex : Nat) (h : addHerald e mode ex = .ok e') : e'.circ = e.circ := by
+  unfold addHerald at h
+  split at h
+  · cases h
+  · split at h
+    · cases h
+    · cases h; rfl
+
+theorem withInput_circ (e e' : Exp) (s : List Nat) (h : withInput e s = .ok e') : e'.circ = e.circ := by
+  unfold withInput at h
+  split at h
+  · cases h
+  · cases h; rfl
+
+/-- every operation other than the five circuit-changing ones leaves the circuit symbol alone -/
+theorem step_circ_frame (w : World) (op : Op) (h : op.touchesCircuit = false) : (step w op).1.circ = w.circ := by
+  cases op with
+  | newRemote via m circ cps noise => simp [Op.touchesCircuit] at h
+  | convert fixed p => simp [Op.touchesCircuit] at h
+  | setCircuit checked sz circ cps => simp [Op.touchesCircuit] at h
+  | retune circ => simp [Op.touchesCircuit] at h
+  | addComponent circ cps => simp [Op.touchesCircuit] at h
+  | addHerald mode ex =>
+    simp only [step]; apply onExp_circ
+    intro e e' hf
+    split at hf
+    · cases hf
+    · exact addHerald_circ e e' mode ex hf
+  | withInput s => simp only [step]; exact onExp_circ _ _ (fun e e' hf => withInput_circ e e' s hf)
+  | setFilter n => simp only [step]; apply onExp_circ; intro e e' hf; cases hf; rfl
+  | setPost p => simp only [step]; apply onExp_circ; intro e e' hf; cases hf; rfl
+  | setNoise n => simp only [step]; apply onExp_circ; intro e e' hf; cases hf; rfl
+  | setParam k v => simp only [step]; apply onExp_circ; intro e e' hf; cases hf; rfl
+  | clearParams => simp only [step]; apply onExp_circ; intro e e' hf; cases hf; rfl
+  | prepare cmd cl il kw =>
+    simp only [step]
+    split
+    · rfl
+    · rename_i e he
+      have h1 := preparePayload_fst w.pf e cmd cl il kw
+      have hc : (preparePayload w.pf e cmd cl il kw).1.circ = e.circ := by
+        rcases h1 with h1 | h1 <;> rw [h1] <;> rfl
+      split <;> (rename_i e' _ hp; rw [hp] at hc; simp [World.circ, he, hc])
+  | newSampler ms =>
+    simp only [step]
+    split
+    · rfl
+    · split <;> rfl
+  | addIterations its =>
+    simp only [step]
+    split
+    · split <;> rfl
+    · rfl
+  | clearIterations => simp only [step]; split <;> rfl
+  | createJob method =>
+    simp only [step]
+    split
+    · rename_i e s he hs
+      have h1 := createJob_fst w.pf e s method
+      have hc : (createJob w.pf e s method).1.circ = e.circ := by
+        rcases h1 with h1 | h1 <;> rw [h1] <;> rfl
+      split <;> (rename_i e' _ hp; rw [hp] at hc; simp [World.circ, he, hc])
+    · rfl
+  | execute idx args kw =>
+    rcases step_execute w idx args kw with ⟨-, h⟩ | ⟨j, its, -, -, h⟩ | ⟨j, its, err, -, -, -, h⟩ | ⟨j, its, pl, -, -, -, h⟩ <;>
+      (rw [h]; rfl)
+
+/-- … over every history made of such operations -/
+theorem exec_circ_frame (w : World) (ops : List Op) (h : ∀ op ∈ ops, op.touchesCircuit = false) :
+    (PM.SM.exec step w ops).circ = w.circ := by
+  induction ops generalizing w with
+  | nil => rfl
+  | cons op ops ih =>
+    rw [PM.SM.exec_cons, ih _ (fun o ho => h o (List.mem_cons_of_mem _ ho)), step_circ_frame w op (h op (by simp))]
 
 end PM.C16
